@@ -148,11 +148,11 @@ static Verdict check_c08 (const J &plan)
 // ------------------------------------------------------------------------------------------ C09
 
 static const char *k_bad_kinds [] = { "read_wrong_mode", "write_wrong_mode", "read_misaligned", "write_misaligned", "read_negative", "write_negative", "seek_bad_whence",
-	"seek_wrong_flag", "seek_out_of_range", "seek_nonseekable", "cmd_unknown", "cmd_bad_size", "cmd_after_data", "setstr_read_handle", "setstr_bad_type", "setstr_null", "setchunk_null", "setstr_empty" } ;
+	"seek_wrong_flag", "seek_out_of_range", "seek_nonseekable", "cmd_unknown", "cmd_bad_size", "cmd_after_data", "setstr_read_handle", "setstr_bad_type", "setstr_null", "setchunk_null", "setstr_empty", "seek_beyond_write" } ;
 static const char *k_badopen_kinds [] = { "null_info", "bad_mode", "zero_format", "zero_minor", "invalid_format", "zero_channels", "missing_path", "empty_store", "junk_store", "bad_fd" } ;
 
 static J gen_bad (GenCtx &g)
-{	J b = mkop ("bad") ; b ["kind"] = k_bad_kinds [g.rng.below (18)] ; b ["T"] = stype_name ((int) g.rng.below (4)) ; b ["n"] = (long long) g.rng.range (0, 40) ;
+{	J b = mkop ("bad") ; b ["kind"] = k_bad_kinds [g.rng.below (19)] ; b ["T"] = stype_name ((int) g.rng.below (4)) ; b ["n"] = (long long) g.rng.range (0, 40) ;
 	if (g.rng.chance (0.5)) b ["fr"] = 1 ; if (g.rng.chance (0.5)) b ["beyond"] = 1 ; if (g.rng.chance (0.5)) b ["null"] = 1 ;
 	b ["whence"] = (int) g.rng.pick<int> ({ 3, 7, 99, -1, 0x1000 }) ;
 	return b ;
@@ -404,7 +404,19 @@ static void gen_script (GenCtx &g, J &ops, const Fmt &f, int ch, int rate, int T
 	int64_t N = 0, cap = (is_alac (f) ? 5000 : 1500) / ch + 2 ;
 	for (int k = 0 ; k < nw ; k++) { J w = mkop ("write") ; w ["T"] = stype_name (T) ; if (g.rng.chance (0.5)) w ["fr"] = 1 ; int64_t n = g.pick_frames (B, ch, cap) ; w ["n"] = (long long) n ; N += n ; ops.push (w) ; }
 	ops.push (mkop ("close")) ;
-	J o2 = mkop ("open") ; o2 ["mode"] = "r" ; o2 ["fmt"] = f.name ; o2 ["ch"] = ch ; o2 ["sr"] = rate ; o2 ["file"] = file ; ops.push (o2) ;
+	// a fifth of the scripts read a file that no longer is what this library writes (header fields changed): tables and parameters
+	// taken from such a file belong to that handle alone; each script is still compared with itself run alone, damage included
+	bool foreign = g.rng.chance (0.2) ;
+	if (foreign)
+	{	J c = mkop ("corrupt") ; c ["file"] = file ; J ed = J::arr () ;
+		for (int k = 0, ne = (int) g.rng.range (1, 3) ; k < ne ; k++)
+		{	J e = J::obj () ; e ["kind"] = g.rng.chance (0.7) ? "field" : "flip" ; e ["off"] = (long long) g.rng.below (1 << 16) ; e ["bit"] = (int) g.rng.below (8) ;
+			e ["val"] = (long long) g.rng.pick<int64_t> ({ 0, 1, 2, 0x7f, 0x80, 0xff, 0x100, 0x7fff, 0x8000, 0xffff, (int64_t) g.rng.below (70000) }) ;
+			e ["width"] = (int) g.rng.pick<int> ({ 1, 2, 2, 4 }) ; e ["be"] = (int) g.rng.below (2) ; e ["region"] = "head" ; ed.push (e) ;
+		}
+		c ["edits"] = ed ; ops.push (c) ;
+	}
+	J o2 = mkop ("open") ; o2 ["mode"] = "r" ; o2 ["fmt"] = f.name ; o2 ["ch"] = ch ; o2 ["sr"] = rate ; o2 ["file"] = file ; if (foreign) o2 ["expect"] = "any" ; ops.push (o2) ;
 	int nr = (int) g.rng.range (1, std::max (1, maxops / 2)) ;
 	for (int k = 0 ; k < nr ; k++)
 	{	if (g.rng.chance (0.25) && N > 0) { J s = mkop ("seek") ; s ["off"] = (long long) g.rng.below ((uint64_t) N + 1) ; s ["whence"] = 0 ; ops.push (s) ; }
